@@ -1,5 +1,6 @@
 import ZapVerif.Model.OpenBuild
 import ZapVerif.Proofs.OpenBuild
+import ZapVerif.Proofs.TransOpen
 /-! # C19 — Open, Config.Build and std-log redirection are all-or-nothing; URLs validated -/
 namespace ZapVerif.C19
 open ZapVerif ZapVerif.OpenBuild
@@ -224,5 +225,1119 @@ example : (build ⟨.ok, true, [true, true], [true, false]⟩) = ⟨.errout, [0,
 example : fileDecision ⟨false, "", "", "", "localhost", "/var/log/x"⟩ = some "/var/log/x" := by decide
 example : normalizeScheme "Zap+Log.v2".toUTF8.toList = some "zap+log.v2".toUTF8.toList := by decide +kernel
 example : (registerSink [("zap".toUTF8.toList, 0)] "ZAP".toUTF8.toList 1).1 = true := by decide +kernel
+
+end ZapVerif.C19
+
+/-! ## opening and building ARE the source (table `Gen/TransOpen.lean`)
+
+The bodies of `open`, `Open`, `CombineWriteSyncers` (writer.go), `Config.Build`, `buildEncoder`, `buildOptions`,
+`openSinks` (config.go), `newFileSinkFromPath`, `newFileSinkFromURL`, `newSink`, `normalizeScheme` (sink.go) and
+`redirectStdLogAt` (global.go), translated mechanically, are interpreted with the registry, the OS opener, `url.Parse`,
+`newEncoder`, `Close`, the key order of a map, `sort.Strings`, `strings.ToLower` and the standard logger as parameters /
+recorded intrinsics; options, cores, loggers and combined syncers are free constructors.  `Build` is COMPOSED: it runs
+the translated `buildEncoder`, `openSinks` → `Open` → `open` (down to the registry calls) and `buildOptions`.  What is
+proved is the ORDER and the CLEANUP — which calls happen on which path — and that these are the decision models of
+`Model/OpenBuild.lean`: `open_is_openAll`, `Build_is_build`, `urlOK_is_fileDecision`, `normalizeScheme_is_model`;
+`redirectStdLogAt_matches_source` states `redirectAt` directly.
+
+A closure VALUE is `[its source text, the captured locals and receiver fields]`; the texts (`closeText`, `samplerText`)
+are read off the generated terms, so editing a closure's text does not break the theorems, while a call of the closure
+inside the function is its body, inlined (the cleanup loop of `open`). -/
+namespace ZapVerif.C19
+set_option linter.unusedSimpArgs false
+open ZapVerif ZapVerif.GoMini ZapVerif.TransOpen ZapVerif.Gen.TransOpen
+
+/-- the standard streams are recognised by NAME only; every other path goes to the opener, once -/
+def pathSpec (P : Par) (path : Bytes) (ev : List Val) : (List Val × List Val) × List Val :=
+  if path = [115, 116, 100, 111, 117, 116] then (([.int 1], []), ev)
+  else if path = [115, 116, 100, 101, 114, 114] then (([.int 2], []), ev)
+  else (P.openFile (.bytes path), ev ++ [.list [TransOpen.nm "sinkRegistry.openFile", .bytes path, .int 1089, .int 438]])
+
+theorem newFileSinkFromPath_exec_matches_source (P : Par) (path : Bytes) (fl0 : Env) (ev : List Val) (fuel : Nat) :
+    (exec (X P) (fuel + 1) newFileSinkFromPath_body ⟨[("p0", .bytes path)], ("ev", .list ev) :: fl0⟩).fin =
+      some ([.list (pathSpec P path ev).1.1, .list (pathSpec P path ev).1.2], ("ev", .list (pathSpec P path ev).2) :: fl0) := by
+  rw [exec_succ]
+  by_cases h1 : path = [115, 116, 100, 111, 117, 116]
+  · subst h1; simp [newFileSinkFromPath_body, pathSpec]
+  · by_cases h2 : path = [115, 116, 100, 101, 114, 114]
+    · subst h2; simp [newFileSinkFromPath_body, pathSpec]
+    · have e1 : (path == [115, 116, 100, 111, 117, 116]) = false := by simpa using h1
+      have e2 : (path == [115, 116, 100, 101, 114, 114]) = false := by simpa using h2
+      simp [newFileSinkFromPath_body, pathSpec, h1, h2, nm_openFile]
+
+theorem newFileSinkFromPath_matches_source (P : Par) (path : Bytes) (fl0 : Env) (ev : List Val) (fuel : Nat) :
+    run (X P) (fuel + 1) "newFileSinkFromPath" [.bytes path] (("ev", .list ev) :: fl0) =
+      .done [.list (pathSpec P path ev).1.1, .list (pathSpec P path ev).1.2] (("ev", .list (pathSpec P path ev).2) :: fl0) :=
+  run_of_fin (X P) _ _ Gen.TransOpen.newFileSinkFromPath [.bytes path] _ _ _ rfl rfl
+    (newFileSinkFromPath_exec_matches_source P path fl0 ev fuel)
+
+/-- `newFileSinkFromURL`: user info, fragment, query, port, a host other than localhost are each refused (in this order,
+    nothing is opened); otherwise the PATH is handed to `newFileSinkFromPath` -/
+def urlOK (P : Par) (u : Val) (user : List Val) (fragment rawQuery : Bytes) : Bool :=
+  user.isEmpty && fragment.isEmpty && rawQuery.isEmpty && (P.port u).isEmpty &&
+    ((P.hostname u).isEmpty || P.hostname u == [108, 111, 99, 97, 108, 104, 111, 115, 116])
+
+theorem newFileSinkFromURL_matches_source (P : Par) (scheme : Bytes) (user : List Val) (fragment rawQuery path : Bytes) (rest : Val)
+    (fl0 : Env) (ev : List Val) (fuel : Nat) :
+    ∃ res fl, run (X P) (fuel + 2) "newFileSinkFromURL" [urlV scheme user fragment rawQuery path rest] (("ev", .list ev) :: fl0) =
+        .done res fl ∧
+      (if urlOK P (urlV scheme user fragment rawQuery path rest) user fragment rawQuery then
+         res = [.list (pathSpec P path ev).1.1, .list (pathSpec P path ev).1.2] ∧ fl = ("ev", .list (pathSpec P path ev).2) :: fl0
+       else (∃ e, res = [.list [], .list [e]]) ∧ fl = ("ev", .list ev) :: fl0) := by
+  have hcall : ∀ σ : State, retK σ [.loc "l1", .loc "l2"] "newFileSinkFromPath"
+      (exec (X P) (fuel + 1) newFileSinkFromPath_body ⟨[("p0", .bytes path)], ("ev", .list ev) :: fl0⟩) = _ :=
+    fun σ => retK_of_fin2 σ _ _ _ _ _ _ _ (newFileSinkFromPath_exec_matches_source P path fl0 ev fuel)
+  have hfin : ∀ (res : List Val) (fl : Env),
+      (exec (X P) (fuel + 2) newFileSinkFromURL_body
+        ⟨[("p0", urlV scheme user fragment rawQuery path rest)], ("ev", .list ev) :: fl0⟩).fin = some (res, fl) →
+      run (X P) (fuel + 2) "newFileSinkFromURL" [urlV scheme user fragment rawQuery path rest] (("ev", .list ev) :: fl0) =
+        .done res fl :=
+    fun res fl h => run_of_fin (X P) _ _ Gen.TransOpen.newFileSinkFromURL _ _ _ _ rfl rfl h
+  have hexec : (exec (X P) (fuel + 2) newFileSinkFromURL_body
+        ⟨[("p0", urlV scheme user fragment rawQuery path rest)], ("ev", .list ev) :: fl0⟩).fin =
+      (if urlOK P (urlV scheme user fragment rawQuery path rest) user fragment rawQuery then
+        some ([.list (pathSpec P path ev).1.1, .list (pathSpec P path ev).1.2], ("ev", .list (pathSpec P path ev).2) :: fl0)
+       else (exec (X P) (fuel + 2) newFileSinkFromURL_body
+        ⟨[("p0", urlV scheme user fragment rawQuery path rest)], ("ev", .list ev) :: fl0⟩).fin) ∧
+      (urlOK P (urlV scheme user fragment rawQuery path rest) user fragment rawQuery = false →
+        ∃ e, (exec (X P) (fuel + 2) newFileSinkFromURL_body
+          ⟨[("p0", urlV scheme user fragment rawQuery path rest)], ("ev", .list ev) :: fl0⟩).fin =
+          some ([.list [], .list [e]], ("ev", .list ev) :: fl0)) := by
+    rw [exec_succ]
+    cases user with
+    | cons x xs =>
+      have hp : ¬ ((xs.length : Int) + 1 = 0) := by omega
+      constructor
+      · simp [urlOK]
+      · intro _; exact ⟨_, by simp [newFileSinkFromURL_body, urlV, hp, errV] <;> rfl⟩
+    | nil =>
+      cases fragment with
+      | cons x xs =>
+        constructor
+        · simp [urlOK]
+        · intro _; exact ⟨_, by simp [newFileSinkFromURL_body, urlV, errV] <;> rfl⟩
+      | nil =>
+        cases rawQuery with
+        | cons x xs =>
+          constructor
+          · simp [urlOK]
+          · intro _; exact ⟨_, by simp [newFileSinkFromURL_body, urlV, errV] <;> rfl⟩
+        | nil =>
+          cases hport : P.port (urlV scheme [] [] [] path rest) with
+          | cons x xs =>
+            constructor
+            · simp [urlOK, hport]
+            · intro _; exact ⟨_, by simp only [urlV] at hport; simp [newFileSinkFromURL_body, urlV, errV, hport] <;> rfl⟩
+          | nil =>
+            have hport' : P.port (.list [.bytes scheme, .list [], .bytes [], .bytes [], .bytes path, rest]) = [] := hport
+            by_cases hh : (P.hostname (urlV scheme [] [] [] path rest)).isEmpty ||
+                P.hostname (urlV scheme [] [] [] path rest) == [108, 111, 99, 97, 108, 104, 111, 115, 116]
+            · have hh' := hh
+              simp only [urlV] at hh'
+              constructor
+              · simp only [urlOK, hport, hh, List.isEmpty_nil, Bool.and_self, Bool.and_true, if_true]
+                rcases Bool.or_eq_true_iff.mp hh' with h1 | h2
+                · have h1' : P.hostname (.list [.bytes scheme, .list [], .bytes [], .bytes [], .bytes path, rest]) = [] := by
+                    simpa using h1
+                  simp [newFileSinkFromURL_body, urlV, hport', h1', hcall]
+                · have h2' : P.hostname (.list [.bytes scheme, .list [], .bytes [], .bytes [], .bytes path, rest]) =
+                      [108, 111, 99, 97, 108, 104, 111, 115, 116] := by simpa using h2
+                  simp [newFileSinkFromURL_body, urlV, hport', h2', hcall]
+              · intro hf; simp [urlOK, hport, hh] at hf
+            · constructor
+              · simp [urlOK, hport, hh]
+              · intro _
+                have hh' := hh
+                simp only [urlV, Bool.or_eq_true, not_or] at hh'
+                obtain ⟨h1, h2⟩ := hh'
+                have h1' : ¬ P.hostname (.list [.bytes scheme, .list [], .bytes [], .bytes [], .bytes path, rest]) = [] := by
+                  simpa using h1
+                have h2' : ¬ P.hostname (.list [.bytes scheme, .list [], .bytes [], .bytes [], .bytes path, rest]) =
+                    [108, 111, 99, 97, 108, 104, 111, 115, 116] := by simpa using h2
+                exact ⟨_, by simp [newFileSinkFromURL_body, urlV, errV, hport', h1', h2'] <;> rfl⟩
+  obtain ⟨h1, h2⟩ := hexec
+  by_cases hok : urlOK P (urlV scheme user fragment rawQuery path rest) user fragment rawQuery
+  · rw [hok] at h1; simp only [if_true] at h1
+    exact ⟨_, _, hfin _ _ h1, by simp [hok]⟩
+  · have hok' : urlOK P (urlV scheme user fragment rawQuery path rest) user fragment rawQuery = false := by simpa using hok
+    obtain ⟨e, he⟩ := h2 hok'
+    exact ⟨_, _, hfin _ _ he, by simp [hok']⟩
+
+/-- **urlOK_is_fileDecision**: the acceptance condition of the translated `newFileSinkFromURL` is the hand model's
+    `OpenBuild.fileDecision` on a URL record with the same emptiness facts -/
+theorem urlOK_is_fileDecision (P : Par) (uV : Val) (user : List Val) (fragment rawQuery : Bytes) (u : OpenBuild.URL)
+    (h1 : u.user = !user.isEmpty) (h2 : u.fragment = "" ↔ fragment = []) (h3 : u.rawQuery = "" ↔ rawQuery = [])
+    (h4 : u.port = "" ↔ P.port uV = []) (h5 : u.hostname = "" ↔ P.hostname uV = [])
+    (h6 : u.hostname = "localhost" ↔ P.hostname uV = [108, 111, 99, 97, 108, 104, 111, 115, 116]) :
+    urlOK P uV user fragment rawQuery = (OpenBuild.fileDecision u).isSome := by
+  simp only [urlOK, OpenBuild.fileDecision, h1]
+  cases user with
+  | cons x xs => simp
+  | nil =>
+    by_cases f2 : fragment = []
+    · by_cases f3 : rawQuery = []
+      · by_cases f4 : P.port uV = []
+        · by_cases f5 : P.hostname uV = []
+          · simp [f2, f3, f4, f5, h2.mpr f2, h3.mpr f3, h4.mpr f4, h5.mpr f5]
+          · by_cases f6 : P.hostname uV = [108, 111, 99, 97, 108, 104, 111, 115, 116]
+            · simp [f2, f3, f4, f6, h2.mpr f2, h3.mpr f3, h4.mpr f4, h6.mpr f6]
+            · have n5 : ¬ u.hostname = "" := fun h => f5 (h5.mp h)
+              have n6 : ¬ u.hostname = "localhost" := fun h => f6 (h6.mp h)
+              simp [f2, f3, f4, f5, f6, h2.mpr f2, h3.mpr f3, h4.mpr f4, n5, n6]
+        · have n4 : ¬ u.port = "" := fun h => f4 (h4.mp h)
+          simp [f2, f3, f4, h2.mpr f2, h3.mpr f3, n4]
+      · have n3 : ¬ u.rawQuery = "" := fun h => f3 (h3.mp h)
+        simp [f2, f3, h2.mpr f2, n3]
+    · have n2 : ¬ u.fragment = "" := fun h => f2 (h2.mp h)
+      simp [f2, n2]
+
+/-- `newSink(rawURL)`: an absolute path bypasses URL parsing; a parse error opens nothing; an empty scheme means `file`;
+    the factory map is read under the registry's mutex; a missing scheme is `errSinkNotFound`; the factory is called
+    once, after the mutex was released -/
+theorem newSink_matches_source (P : Par) (raw : Bytes) (mu fac : Val) (ev : List Val)
+    (scheme : Bytes) (user : List Val) (fragment rawQuery path : Bytes) (rest : Val) (perr : List Val)
+    (hparse : P.parse (.bytes raw) = (urlV scheme user fragment rawQuery path rest, perr)) (fuel : Nat) :
+    ∃ res ev', run (X P) (fuel + 2) "newSink" [.bytes raw] [("ev", .list ev), ("mu", mu), ("factories", fac)] =
+        .done res [("ev", .list ev'), ("mu", mu), ("factories", fac)] ∧
+      (if P.isAbs (.bytes raw) then
+         res = [.list (pathSpec P raw ev).1.1, .list (pathSpec P raw ev).1.2] ∧ ev' = (pathSpec P raw ev).2
+       else if !perr.isEmpty then (∃ e, res = [.list [], .list [e]]) ∧ ev' = ev
+       else
+         let u' := urlV (if scheme.isEmpty then [102, 105, 108, 101] else scheme) user fragment rawQuery path rest
+         let sch : Val := .bytes (if scheme.isEmpty then [102, 105, 108, 101] else scheme)
+         if (P.lookup fac sch).2 then
+           res = [.list (P.factory (P.lookup fac sch).1 u').1, .list (P.factory (P.lookup fac sch).1 u').2] ∧
+           ev' = ev ++ [.list [TransOpen.nm "Mutex.Lock", mu], .list [TransOpen.nm "Mutex.Unlock", mu],
+                        .list [TransOpen.nm "SinkFactory.call", (P.lookup fac sch).1, u']]
+         else res = [.list [], errV "errSinkNotFound" [sch]] ∧
+           ev' = ev ++ [.list [TransOpen.nm "Mutex.Lock", mu], .list [TransOpen.nm "Mutex.Unlock", mu]]) := by
+  have hcall : ∀ σ : State, retK σ [.loc "l0", .loc "l1"] "newFileSinkFromPath"
+      (exec (X P) (fuel + 1) newFileSinkFromPath_body ⟨[("p0", .bytes raw)], ("ev", .list ev) :: [("mu", mu), ("factories", fac)]⟩) = _ :=
+    fun σ => retK_of_fin2 σ _ _ _ _ _ _ _ (newFileSinkFromPath_exec_matches_source P raw _ ev fuel)
+  have hfin : ∀ (res : List Val) (fl : Env),
+      (exec (X P) (fuel + 2) newSink_body ⟨[("p0", .bytes raw)], [("ev", .list ev), ("mu", mu), ("factories", fac)]⟩).fin =
+        some (res, fl) →
+      run (X P) (fuel + 2) "newSink" [.bytes raw] [("ev", .list ev), ("mu", mu), ("factories", fac)] = .done res fl :=
+    fun res fl h => run_of_fin (X P) _ _ Gen.TransOpen.newSink _ _ _ _ rfl rfl h
+  cases habs : P.isAbs (.bytes raw) with
+  | true =>
+    have h : (exec (X P) (fuel + 2) newSink_body ⟨[("p0", .bytes raw)], [("ev", .list ev), ("mu", mu), ("factories", fac)]⟩).fin =
+        some ([.list (pathSpec P raw ev).1.1, .list (pathSpec P raw ev).1.2], [("ev", .list ((pathSpec P raw ev).2)), ("mu", mu), ("factories", fac)]) := by
+      rw [exec_succ]
+      simp [newSink_body, habs, hcall]
+    exact ⟨_, _, hfin _ _ h, by simp [habs]⟩
+  | false =>
+    cases perr with
+    | cons e es =>
+      have hp : ¬ ((es.length : Int) + 1 = 0) := by omega
+      have h : (exec (X P) (fuel + 2) newSink_body ⟨[("p0", .bytes raw)], [("ev", .list ev), ("mu", mu), ("factories", fac)]⟩).fin =
+          some ([.list [], errV "fmt.Errorf" [.bytes [99, 97, 110, 39, 116, 32, 112, 97, 114, 115, 101, 32, 37, 113, 32, 97, 115, 32, 97, 32, 85, 82, 76, 58, 32, 37, 118], .bytes raw, .list (e :: es)]], [("ev", .list (ev)), ("mu", mu), ("factories", fac)]) := by
+        rw [exec_succ]
+        simp [newSink_body, habs, hparse, hp, errV]
+      exact ⟨_, _, hfin _ _ h, by simp [habs, errV]⟩
+    | nil =>
+      cases scheme with
+      | nil =>
+        cases hl : (P.lookup fac (.bytes [102, 105, 108, 101])).2 with
+        | true =>
+          have h : (exec (X P) (fuel + 2) newSink_body ⟨[("p0", .bytes raw)], [("ev", .list ev), ("mu", mu), ("factories", fac)]⟩).fin =
+              some ([.list (P.factory (P.lookup fac (.bytes [102, 105, 108, 101])).1 (urlV [102, 105, 108, 101] user fragment rawQuery path rest)).1, .list (P.factory (P.lookup fac (.bytes [102, 105, 108, 101])).1 (urlV [102, 105, 108, 101] user fragment rawQuery path rest)).2], [("ev", .list (ev ++ [.list [TransOpen.nm "Mutex.Lock", mu], .list [TransOpen.nm "Mutex.Unlock", mu], .list [TransOpen.nm "SinkFactory.call", (P.lookup fac (.bytes [102, 105, 108, 101])).1, urlV [102, 105, 108, 101] user fragment rawQuery path rest]])), ("mu", mu), ("factories", fac)]) := by
+            rw [exec_succ]
+            simp [newSink_body, habs, hparse, urlV, hl, nm_lock, nm_unlock, nm_factory]
+          exact ⟨_, _, hfin _ _ h, by simp [habs, hl]⟩
+        | false =>
+          have h : (exec (X P) (fuel + 2) newSink_body ⟨[("p0", .bytes raw)], [("ev", .list ev), ("mu", mu), ("factories", fac)]⟩).fin =
+              some ([.list [], errV "errSinkNotFound" [.bytes [102, 105, 108, 101]]], [("ev", .list (ev ++ [.list [TransOpen.nm "Mutex.Lock", mu], .list [TransOpen.nm "Mutex.Unlock", mu]])), ("mu", mu), ("factories", fac)]) := by
+            rw [exec_succ]
+            simp [newSink_body, habs, hparse, urlV, hl, nm_lock, nm_unlock, errV]
+          exact ⟨_, _, hfin _ _ h, by simp [habs, hl]⟩
+      | cons c cs =>
+        cases hl : (P.lookup fac (.bytes (c :: cs))).2 with
+        | true =>
+          have h : (exec (X P) (fuel + 2) newSink_body ⟨[("p0", .bytes raw)], [("ev", .list ev), ("mu", mu), ("factories", fac)]⟩).fin =
+              some ([.list (P.factory (P.lookup fac (.bytes (c :: cs))).1 (urlV (c :: cs) user fragment rawQuery path rest)).1, .list (P.factory (P.lookup fac (.bytes (c :: cs))).1 (urlV (c :: cs) user fragment rawQuery path rest)).2], [("ev", .list (ev ++ [.list [TransOpen.nm "Mutex.Lock", mu], .list [TransOpen.nm "Mutex.Unlock", mu], .list [TransOpen.nm "SinkFactory.call", (P.lookup fac (.bytes (c :: cs))).1, urlV (c :: cs) user fragment rawQuery path rest]])), ("mu", mu), ("factories", fac)]) := by
+            rw [exec_succ]
+            simp [newSink_body, habs, hparse, urlV, hl, nm_lock, nm_unlock, nm_factory]
+          exact ⟨_, _, hfin _ _ h, by simp [habs, hl]⟩
+        | false =>
+          have h : (exec (X P) (fuel + 2) newSink_body ⟨[("p0", .bytes raw)], [("ev", .list ev), ("mu", mu), ("factories", fac)]⟩).fin =
+              some ([.list [], errV "errSinkNotFound" [.bytes (c :: cs)]], [("ev", .list (ev ++ [.list [TransOpen.nm "Mutex.Lock", mu], .list [TransOpen.nm "Mutex.Unlock", mu]])), ("mu", mu), ("factories", fac)]) := by
+            rw [exec_succ]
+            simp [newSink_body, habs, hparse, urlV, hl, nm_lock, nm_unlock, errV]
+          exact ⟨_, _, hfin _ _ h, by simp [habs, hl]⟩
+
+/-- `redirectStdLogAt`: the level is validated FIRST; on an error the standard logger (flags, prefix, output) is exactly
+    as it was; otherwise flags and prefix are zeroed, the output is the zap writer, and the restore function handed back
+    has captured the ORIGINAL flags and prefix -/
+theorem redirectStdLogAt_matches_source (P : Par) (lg : Val) (level : Int) (flags : Int) (pref : Bytes) (out : Val)
+    (fuel : Nat) :
+    ∃ res fl, run (X P) (fuel + 1) "redirectStdLogAt" [lg, .int level]
+        [("std.flags", .int flags), ("std.prefix", .bytes pref), ("std.out", out)] = .done res fl ∧
+      (if P.levelOK level then
+         (∃ text lf, res = [.list [text, .int flags, .bytes pref], .list []] ∧
+           fl = [("std.flags", .int 0), ("std.prefix", .bytes []), ("std.out", .list [TransOpen.nm "loggerWriter", lf])])
+       else (∃ e, res = [.list [], .list [e]]) ∧
+         fl = [("std.flags", .int flags), ("std.prefix", .bytes pref), ("std.out", out)]) := by
+  have hfin : ∀ (res : List Val) (fl : Env),
+      (exec (X P) (fuel + 1) redirectStdLogAt_body ⟨[("p0", lg), ("p1", .int level)],
+        [("std.flags", .int flags), ("std.prefix", .bytes pref), ("std.out", out)]⟩).fin = some (res, fl) →
+      run (X P) (fuel + 1) "redirectStdLogAt" [lg, .int level]
+        [("std.flags", .int flags), ("std.prefix", .bytes pref), ("std.out", out)] = .done res fl :=
+    fun res fl h => run_of_fin (X P) _ _ Gen.TransOpen.redirectStdLogAt _ _ _ _ rfl rfl h
+  cases hok : P.levelOK level with
+  | true =>
+    have h : ∃ text lf, (exec (X P) (fuel + 1) redirectStdLogAt_body ⟨[("p0", lg), ("p1", .int level)],
+        [("std.flags", .int flags), ("std.prefix", .bytes pref), ("std.out", out)]⟩).fin =
+        some ([.list [text, .int flags, .bytes pref], .list []],
+          [("std.flags", .int 0), ("std.prefix", .bytes []), ("std.out", .list [TransOpen.nm "loggerWriter", lf])]) := by
+      generalize hE : (exec (X P) (fuel + 1) redirectStdLogAt_body ⟨[("p0", lg), ("p1", .int level)],
+        [("std.flags", .int flags), ("std.prefix", .bytes pref), ("std.out", out)]⟩).fin = E
+      rw [exec_succ] at hE
+      simp [redirectStdLogAt_body, hok] at hE
+      subst hE
+      exact ⟨_, _, rfl⟩
+    obtain ⟨text, lf, h⟩ := h
+    exact ⟨_, _, hfin _ _ h, by simp⟩
+  | false =>
+    have h : (exec (X P) (fuel + 1) redirectStdLogAt_body ⟨[("p0", lg), ("p1", .int level)],
+        [("std.flags", .int flags), ("std.prefix", .bytes pref), ("std.out", out)]⟩).fin =
+        some ([.list [], errV "levelToFunc" [.int level]],
+          [("std.flags", .int flags), ("std.prefix", .bytes pref), ("std.out", out)]) := by
+      rw [exec_succ]
+      simp [redirectStdLogAt_body, hok, errV]
+    exact ⟨_, _, hfin _ _ h, by simp [errV]⟩
+
+/-! ### `open`: every path is tried; on any failure everything that was opened is closed -/
+
+structure OA where
+  w : List Val
+  c : List Val
+  e : List Val
+  ev : List Val
+
+def openFmt : Val := .bytes [111, 112, 101, 110, 32, 115, 105, 110, 107, 32, 37, 113, 58, 32, 37, 119]
+
+/-- one path: the registry is asked (recorded); a sink that opened is remembered twice (to write to, to close); a failure
+    is appended to the error and the loop goes on -/
+def openStep (P : Par) (a : OA) (p : Val) : OA :=
+  if (P.newSink p).2.isEmpty then
+    ⟨a.w ++ [.list (P.newSink p).1], a.c ++ [.list (P.newSink p).1], a.e, a.ev ++ [.list [TransOpen.nm "sinkRegistry.newSink", p]]⟩
+  else
+    ⟨a.w, a.c, a.e ++ [.list [TransOpen.nm "fmt.Errorf", openFmt, p, .list (P.newSink p).2]],
+      a.ev ++ [.list [TransOpen.nm "sinkRegistry.newSink", p]]⟩
+
+def oaJunk : Option (Val × Val × Val) → Env
+  | none => []
+  | some (p, s, e) => [("l3", p), ("l4", s), ("l5", e)]
+
+theorem open_loop_matches_source (P : Par) (p0 : Val) (rec : Stmt → State → GoMini.Out) (fl0 : Env) :
+    ∀ (ps : List Val) (a : OA) (i : Nat) (t : Option (Val × Val × Val)),
+    ∃ t', rangeRun (execS (X P) rec openAll_loop0.rbody) .blank (.loc "l3") ps i
+        ⟨[("p0", p0), ("l0", .list a.w), ("l1", .list a.c), ("l2", .list a.e)] ++ oaJunk t, ("ev", .list a.ev) :: fl0⟩ =
+      .normal ⟨[("p0", p0), ("l0", .list (ps.foldl (openStep P) a).w), ("l1", .list (ps.foldl (openStep P) a).c),
+          ("l2", .list (ps.foldl (openStep P) a).e)] ++ oaJunk t', ("ev", .list (ps.foldl (openStep P) a).ev) :: fl0⟩
+  | [], a, i, t => ⟨t, by simp [rangeRun]⟩
+  | p :: r, a, i, t => by
+    obtain ⟨t', hrest⟩ := open_loop_matches_source P p0 rec fl0 r (openStep P a p) (i + 1)
+      (some (p, .list (P.newSink p).1, .list (P.newSink p).2))
+    refine ⟨t', ?_⟩
+    cases he : (P.newSink p).2 with
+    | nil =>
+      have hst : openStep P a p = ⟨a.w ++ [.list (P.newSink p).1], a.c ++ [.list (P.newSink p).1], a.e,
+          a.ev ++ [.list [TransOpen.nm "sinkRegistry.newSink", p]]⟩ := by simp [openStep, he]
+      rw [hst, he] at hrest
+      cases t <;>
+        simp [rangeRun, openAll_loop0, Stmt.rbody, oaJunk, he, nm_newSink, State.assign1, Env.set, hst] <;>
+        simpa [oaJunk, openAll_loop0, Stmt.rbody, nm_newSink] using hrest
+    | cons e es =>
+      have hp : ¬ ((es.length : Int) + 1 = 0) := by omega
+      have hst : openStep P a p = ⟨a.w, a.c, a.e ++ [.list [TransOpen.nm "fmt.Errorf", openFmt, p, .list (e :: es)]],
+          a.ev ++ [.list [TransOpen.nm "sinkRegistry.newSink", p]]⟩ := by simp [openStep, he]
+      rw [hst, he] at hrest
+      cases t <;>
+        simp [rangeRun, openAll_loop0, Stmt.rbody, oaJunk, he, hp, nm_newSink, State.assign1, Env.set, hst, errV, openFmt] <;>
+        simpa [oaJunk, openAll_loop0, Stmt.rbody, nm_newSink, errV, openFmt] using hrest
+
+/-- the cleanup loop: `Close` on every sink that was opened, in the order they were opened -/
+theorem open_close_matches_source (P : Par) (rec : Stmt → State → GoMini.Out) (p0 w c e : Val) (t0 : Option (Val × Val × Val))
+    (fl0 : Env) :
+    ∀ (cs : List Val) (ev : List Val) (i : Nat) (t : Option Val),
+    ∃ t', rangeRun (execS (X P) rec openAll_loop1.rbody) .blank (.loc "l6") cs i
+        ⟨[("p0", p0), ("l0", w), ("l1", c), ("l2", e)] ++ oaJunk t0 ++ (match t with | some v => [("l6", v)] | none => []),
+          ("ev", .list ev) :: fl0⟩ =
+      .normal ⟨[("p0", p0), ("l0", w), ("l1", c), ("l2", e)] ++ oaJunk t0 ++ (match t' with | some v => [("l6", v)] | none => []),
+        ("ev", .list (ev ++ cs.map fun c => .list [TransOpen.nm "Sink.Close", c])) :: fl0⟩ := by
+  intro cs
+  induction cs with
+  | nil => intro ev i t; exact ⟨t, by cases t <;> simp [rangeRun]⟩
+  | cons x r ih =>
+    intro ev i t
+    obtain ⟨t', h⟩ := ih (ev ++ [.list [TransOpen.nm "Sink.Close", x]]) (i + 1) (some x)
+    refine ⟨t', ?_⟩
+    cases t0 <;> cases t <;>
+      simp [rangeRun, openAll_loop1, Stmt.rbody, oaJunk, nm_close, State.assign1, Env.set, List.append_assoc] <;>
+      simpa [oaJunk, openAll_loop1, Stmt.rbody, nm_close, List.append_assoc] using h
+
+/-- the source text of the `closeAll` literal, as the translation of `open` carries it into the returned closure value -/
+def closeText : Val :=
+  match openAll_body.tl.tl.tl.tl.tl.tl with
+  | .ret [_, .call _ (.lit t :: _), _] => t
+  | _ => .list []
+
+def closeEv (cs : List Val) : List Val := cs.map fun c => .list [TransOpen.nm "Sink.Close", c]
+
+/-- the loop of `open` over all paths -/
+def openR (P : Par) (ps ev : List Val) : OA := ps.foldl (openStep P) ⟨[], [], [], ev⟩
+
+/-- what `open` returns, and what has been recorded when it does: if every path opened, the sinks and a close function
+    holding exactly them (nothing is closed); otherwise nil, nil and the combined error, after `Close` on every sink that
+    did open, in order -/
+def openOut (R : OA) : List Val × List Val :=
+  if R.e.isEmpty then ([.list R.w, .list [closeText, .list R.c], .list []], R.ev)
+  else ([.list [], .list [], .list R.e], R.ev ++ closeEv R.c)
+
+def openSpec (P : Par) (ps ev : List Val) : List Val × List Val := openOut (openR P ps ev)
+
+set_option maxRecDepth 8000 in
+theorem open_exec_matches_source (P : Par) (ps ev : List Val) (fl0 : Env) (fuel : Nat) :
+    (exec (X P) (fuel + 1) openAll_body ⟨[("p0", .list ps)], ("ev", .list ev) :: fl0⟩).fin =
+      some ((openSpec P ps ev).1, ("ev", .list (openSpec P ps ev).2) :: fl0) := by
+  obtain ⟨t1, hloop⟩ := open_loop_matches_source P (.list ps) (exec (X P) fuel) fl0 ps ⟨[], [], [], ev⟩ 0 none
+  show _ = some ((openOut (ps.foldl (openStep P) ⟨[], [], [], ev⟩)).1, ("ev", .list (openOut (ps.foldl (openStep P) ⟨[], [], [], ev⟩)).2) :: fl0)
+  generalize ps.foldl (openStep P) ⟨[], [], [], ev⟩ = R at hloop ⊢
+  obtain ⟨w, c, e, ev1⟩ := R
+  simp only [openOut]
+  have hL0 : openAll_loop0 = .range .blank (.loc "l3") (.loc "p0") openAll_loop0.rbody := rfl
+  have hb : openAll_body = .seq openAll_body.hd (.seq openAll_body.tl.hd (.seq openAll_body.tl.tl.hd
+      (.seq openAll_body.tl.tl.tl.hd (.seq openAll_loop0 openAll_body.tl.tl.tl.tl.tl)))) := rfl
+  have hpre : ∀ k : State → GoMini.Out,
+      (execS (X P) (exec (X P) fuel) openAll_body ⟨[("p0", .list ps)], ("ev", .list ev) :: fl0⟩) =
+      (rangeRun (execS (X P) (exec (X P) fuel) openAll_loop0.rbody) .blank (.loc "l3") ps 0
+        ⟨[("p0", .list ps), ("l0", .list []), ("l1", .list []), ("l2", .list [])], ("ev", .list ev) :: fl0⟩).andThen
+        (execS (X P) (exec (X P) fuel) openAll_body.tl.tl.tl.tl.tl) := by
+    intro _
+    rw [hb]
+    simp only [execS_seq]
+    simp [openAll_body, Stmt.hd, Stmt.tl]
+    rw [hL0, execS_range]
+    rfl
+  simp only [oaJunk, List.append_nil] at hloop
+  cases e with
+  | nil =>
+    rw [exec_succ, hpre (fun σ => .normal σ), hloop]
+    cases t1 <;> simp [openAll_body, Stmt.tl, oaJunk, closeText]
+  | cons e0 es =>
+    have hp : ¬ ((es.length : Int) + 1 = 0) := by omega
+    obtain ⟨t2, hclose⟩ := open_close_matches_source P (exec (X P) fuel) (.list ps) (.list w) (.list c) (.list (e0 :: es)) t1 fl0
+      c ev1 0 none
+    rw [exec_succ, hpre (fun σ => .normal σ), hloop]
+    simp only [Out.andThen_normal]
+    simp only [List.append_nil] at hclose
+    have hx : ∀ σ, execS (X P) (exec (X P) fuel) openAll_loop1 σ =
+        execS (X P) (exec (X P) fuel) (.range .blank (.loc "l6") (.loc "l1") openAll_loop1.rbody) σ := fun _ => rfl
+    cases t1 <;>
+      (simp [openAll_body, Stmt.tl, oaJunk, hp, hx, closeEv] at hclose ⊢
+       rw [hclose]
+       cases t2 <;> simp)
+
+/-- **open_matches_source**: every path is handed to the registry, in order, whatever happened before; if all opened,
+    the sinks and a close function holding exactly them are returned and nothing is closed; if any failed, every sink that
+    did open is closed (in order) before the combined error is returned with nil writers and a nil close function -/
+theorem open_matches_source (P : Par) (ps ev : List Val) (fl0 : Env) (fuel : Nat) :
+    run (X P) (fuel + 1) "openAll" [.list ps] (("ev", .list ev) :: fl0) =
+      .done (openSpec P ps ev).1 (("ev", .list (openSpec P ps ev).2) :: fl0) :=
+  run_of_fin (X P) _ _ Gen.TransOpen.openAll _ _ _ _ rfl rfl (open_exec_matches_source P ps ev fl0 fuel)
+
+/-- does the registry open this path? -/
+def opens (P : Par) (p : Val) : Bool := (P.newSink p).2.isEmpty
+
+theorem open_fold (P : Par) : ∀ (ps : List Val) (a : OA),
+    (ps.foldl (openStep P) a).w = a.w ++ (ps.filter (opens P)).map (fun p => .list (P.newSink p).1) ∧
+    (ps.foldl (openStep P) a).c = a.c ++ (ps.filter (opens P)).map (fun p => .list (P.newSink p).1) ∧
+    (ps.foldl (openStep P) a).e = a.e ++ (ps.filter (fun p => !opens P p)).map
+      (fun p => .list [TransOpen.nm "fmt.Errorf", openFmt, p, .list (P.newSink p).2]) ∧
+    (ps.foldl (openStep P) a).ev = a.ev ++ ps.map (fun p => .list [TransOpen.nm "sinkRegistry.newSink", p])
+  | [], a => by simp
+  | p :: r, a => by
+    obtain ⟨h1, h2, h3, h4⟩ := open_fold P r (openStep P a p)
+    simp only [List.foldl_cons]
+    rw [h1, h2, h3, h4]
+    cases h : opens P p <;> simp [opens] at h <;> simp [openStep, opens, h]
+
+theorem openedIdx_length : ∀ (outs : List Bool) (i : Nat), (OpenBuild.openedIdx i outs).length = (outs.filter id).length
+  | [], _ => rfl
+  | true :: r, i => by simp [OpenBuild.openedIdx, openedIdx_length r]
+  | false :: r, i => by simp [OpenBuild.openedIdx, openedIdx_length r]
+
+/-- **open_is_openAll**: the fold the source computes is the hand model `OpenBuild.openAll` on the outcomes
+    `outs[i] = (path i opened)`: it fails exactly when the model fails, the sinks it holds are those of the paths that opened
+    (in path order, as many as the model's `opened`), both returned lists are those sinks, every path reached the registry -/
+theorem open_is_openAll (P : Par) (ps : List Val) (ev : List Val) :
+    let R := openR P ps ev
+    let M := OpenBuild.openAll (ps.map (opens P))
+    R.e.isEmpty = !M.err ∧
+    R.c = (ps.filter (opens P)).map (fun p => .list (P.newSink p).1) ∧ R.w = R.c ∧
+    M.opened.length = R.c.length ∧
+    (M.err = true → M.closed = M.opened ∧ M.returned = []) ∧ (M.err = false → M.closed = [] ∧ M.returned = M.opened) ∧
+    R.ev = ev ++ ps.map (fun p => .list [TransOpen.nm "sinkRegistry.newSink", p]) := by
+  obtain ⟨hw, hc, he, hev⟩ := open_fold P ps ⟨[], [], [], ev⟩
+  simp only [List.nil_append] at hw hc he
+  show (openR P ps ev).e.isEmpty = _ ∧ _
+  simp only [openR]
+  refine ⟨?_, hc, by rw [hw, hc], ?_, ?_, ?_, hev⟩
+  · rw [he]
+    simp only [OpenBuild.openAll]
+    cases hall : (ps.map (opens P)).all id
+    · simp only [Bool.false_eq_true, if_false, Bool.not_true]
+      simp only [List.all_map, List.all_eq_false] at hall
+      obtain ⟨x, hx, hxo⟩ := hall
+      cases hf : List.filter (fun p => !opens P p) ps with
+      | nil =>
+        have := List.filter_eq_nil_iff.mp hf x hx
+        simp at hxo this; simp [this] at hxo
+      | cons _ _ => simp
+    · simp only [if_true, Bool.not_false]
+      simp only [List.all_map, List.all_eq_true] at hall
+      have : List.filter (fun p => !opens P p) ps = [] := by
+        apply List.filter_eq_nil_iff.mpr
+        intro a ha; have := hall a ha; simp at this; simp [this]
+      simp [this]
+  · rw [hc]
+    simp only [OpenBuild.openAll]
+    split <;> simp [openedIdx_length, List.filter_map, Function.comp_def]
+  · simp only [OpenBuild.openAll]; split <;> simp
+  · simp only [OpenBuild.openAll]; split <;> simp
+
+/-! ### `CombineWriteSyncers`, `Open`, `Config.openSinks` -/
+
+/-- no writers: a no-op syncer over io.Discard; otherwise the locked multi-writer over exactly the writers given -/
+def combineSpec (ws : List Val) : Val :=
+  if ws.isEmpty then .list [conV "zapcore.AddSync" [.list [.int 0]]]
+  else .list [conV "zapcore.Lock" [.list [conV "zapcore.NewMultiWriteSyncer" [.list ws]]]]
+
+theorem CombineWriteSyncers_exec_matches_source (P : Par) (ws : List Val) (fl : Env) (fuel : Nat) :
+    (exec (X P) (fuel + 1) CombineWriteSyncers_body ⟨[("p0", .list ws)], fl⟩).fin = some ([combineSpec ws], fl) := by
+  rw [exec_succ]
+  cases ws with
+  | nil => simp [CombineWriteSyncers_body, combineSpec]
+  | cons w r =>
+    have hp : ¬ ((r.length : Int) + 1 = 0) := by omega
+    simp [CombineWriteSyncers_body, combineSpec, hp]
+
+theorem CombineWriteSyncers_matches_source (P : Par) (ws : List Val) (fl : Env) (fuel : Nat) :
+    run (X P) (fuel + 1) "CombineWriteSyncers" [.list ws] fl = .done [combineSpec ws] fl :=
+  run_of_fin (X P) _ _ Gen.TransOpen.CombineWriteSyncers _ _ _ _ rfl rfl (CombineWriteSyncers_exec_matches_source P ws fl fuel)
+
+/-- `Open`: `open`, and on success the combined writer over exactly the sinks that were opened, with `open`'s close function -/
+def OpenOut (R : OA) : List Val × List Val :=
+  if R.e.isEmpty then ([combineSpec R.w, .list [closeText, .list R.c], .list []], R.ev) else openOut R
+
+def OpenSpec (P : Par) (ps ev : List Val) : List Val × List Val := OpenOut (openR P ps ev)
+
+theorem Open_exec_matches_source (P : Par) (ps ev : List Val) (fl0 : Env) (fuel : Nat) :
+    (exec (X P) (fuel + 2) Open_body ⟨[("p0", .list ps)], ("ev", .list ev) :: fl0⟩).fin =
+      some ((OpenSpec P ps ev).1, ("ev", .list (OpenSpec P ps ev).2) :: fl0) := by
+  have h1 := open_exec_matches_source P ps ev fl0 fuel
+  simp only [OpenSpec, openSpec] at h1 ⊢
+  generalize openR P ps ev = R at h1 ⊢
+  obtain ⟨w, c, e, ev1⟩ := R
+  rw [exec_succ]
+  cases e with
+  | nil =>
+    have h2 := CombineWriteSyncers_exec_matches_source P w (("ev", .list ev1) :: fl0) fuel
+    simp only [openOut, List.isEmpty_nil, if_true] at h1
+    simp [Open_body, OpenOut, retK_of_fin _ _ _ _ _ _ _ h1, retK_of_fin1 _ _ _ _ _ _ h2]
+  | cons e0 es =>
+    have hp : ¬ ((es.length : Int) + 1 = 0) := by omega
+    simp only [openOut, List.isEmpty_cons, Bool.false_eq_true, if_false] at h1
+    simp [Open_body, OpenOut, openOut, retK_of_fin _ _ _ _ _ _ _ h1, hp]
+
+/-- `Config.openSinks`: the outputs are opened first; if that fails NOTHING else happens (`open` has closed what it had
+    opened); otherwise the error outputs are opened, and if THAT fails (`open` has closed what it had opened of them) the
+    outputs' close function — holding exactly the output sinks — is called, once, before the error is returned; on
+    success neither close function is called -/
+def openSinksSpec (P : Par) (outs errs ev : List Val) : List Val × List Val :=
+  if (openR P outs ev).e.isEmpty then
+    if (openR P errs (openR P outs ev).ev).e.isEmpty then
+      ([combineSpec (openR P outs ev).w, combineSpec (openR P errs (openR P outs ev).ev).w, .list []],
+        (openR P errs (openR P outs ev).ev).ev)
+    else
+      ([.list [], .list [], .list (openR P errs (openR P outs ev).ev).e],
+        (openR P errs (openR P outs ev).ev).ev ++ closeEv (openR P errs (openR P outs ev).ev).c ++
+          [.list [TransOpen.nm "Closure.call", .list [closeText, .list (openR P outs ev).c]]])
+  else ([.list [], .list [], .list (openR P outs ev).e], (openR P outs ev).ev ++ closeEv (openR P outs ev).c)
+
+theorem openSinks_exec_matches_source (P : Par) (outs errs ev : List Val) (fl0 : Env)
+    (hO : Env.get "outputPaths" fl0 = some (.list outs)) (hE : Env.get "errorOutputPaths" fl0 = some (.list errs)) (fuel : Nat) :
+    (exec (X P) (fuel + 3) openSinks_body ⟨[], ("ev", .list ev) :: fl0⟩).fin =
+      some ((openSinksSpec P outs errs ev).1, ("ev", .list (openSinksSpec P outs errs ev).2) :: fl0) := by
+  have h1 := Open_exec_matches_source P outs ev fl0 fuel
+  have h2 := fun ev1 => Open_exec_matches_source P errs ev1 fl0 fuel
+  simp only [OpenSpec, openSinksSpec] at h1 h2 ⊢
+  generalize openR P outs ev = O at h1 ⊢
+  obtain ⟨w, c, e, ev1⟩ := O
+  rw [exec_succ]
+  cases e with
+  | cons e0 es =>
+    have hp : ¬ ((es.length : Int) + 1 = 0) := by omega
+    simp only [OpenOut, openOut, List.isEmpty_cons, Bool.false_eq_true, if_false] at h1
+    simp [openSinks_body, Env.get, hO, retK_of_fin _ _ _ _ _ _ _ h1, hp]
+  | nil =>
+    simp only [OpenOut, List.isEmpty_nil, if_true] at h1
+    have h2' := h2 ev1
+    generalize openR P errs ev1 = E at h2' ⊢
+    obtain ⟨w', c', e', ev2⟩ := E
+    cases e' with
+    | cons e0 es =>
+      have hp : ¬ ((es.length : Int) + 1 = 0) := by omega
+      simp only [OpenOut, openOut, List.isEmpty_cons, Bool.false_eq_true, if_false] at h2'
+      simp [openSinks_body, Env.get, Env.set, hO, hE, retK_of_fin _ _ _ _ _ _ _ h1, retK_of_fin _ _ _ _ _ _ _ h2', hp, nm_closure]
+    | nil =>
+      simp only [OpenOut, List.isEmpty_nil, if_true] at h2'
+      simp [openSinks_body, Env.get, hO, hE, retK_of_fin _ _ _ _ _ _ _ h1, retK_of_fin _ _ _ _ _ _ _ h2']
+
+theorem openSinks_matches_source (P : Par) (outs errs ev : List Val) (fl0 : Env)
+    (hO : Env.get "outputPaths" fl0 = some (.list outs)) (hE : Env.get "errorOutputPaths" fl0 = some (.list errs)) (fuel : Nat) :
+    run (X P) (fuel + 3) "openSinks" [] (("ev", .list ev) :: fl0) =
+      .done (openSinksSpec P outs errs ev).1 (("ev", .list (openSinksSpec P outs errs ev).2) :: fl0) :=
+  run_of_fin (X P) _ _ Gen.TransOpen.openSinks _ _ _ _ rfl rfl (openSinks_exec_matches_source P outs errs ev fl0 hO hE fuel)
+
+/-! ### `Config.buildEncoder`, `Config.buildOptions`, `Config.Build` -/
+
+theorem buildEncoder_exec_matches_source (P : Par) (enc cfg : Val) (ev : List Val) (fl0 : Env)
+    (hN : Env.get "encoding" fl0 = some enc) (hC : Env.get "encoderConfig" fl0 = some cfg) (fuel : Nat) :
+    (exec (X P) (fuel + 1) buildEncoder_body ⟨[], ("ev", .list ev) :: fl0⟩).fin =
+      some ([.list (P.newEncoder enc cfg).1, .list (P.newEncoder enc cfg).2],
+        ("ev", .list (ev ++ [.list [TransOpen.nm "newEncoder", enc, cfg]])) :: fl0) := by
+  rw [exec_succ]
+  simp [buildEncoder_body, Env.get, Env.set, hN, hC, nm_newEncoder]
+
+/-- `buildEncoder` hands the configured name and encoder configuration, as they are, to the registry — once -/
+theorem buildEncoder_matches_source (P : Par) (enc cfg : Val) (ev : List Val) (fl0 : Env)
+    (hN : Env.get "encoding" fl0 = some enc) (hC : Env.get "encoderConfig" fl0 = some cfg) (fuel : Nat) :
+    run (X P) (fuel + 1) "buildEncoder" [] (("ev", .list ev) :: fl0) =
+      .done [.list (P.newEncoder enc cfg).1, .list (P.newEncoder enc cfg).2]
+        (("ev", .list (ev ++ [.list [TransOpen.nm "newEncoder", enc, cfg]])) :: fl0) :=
+  run_of_fin (X P) _ _ Gen.TransOpen.buildEncoder _ _ _ _ rfl rfl (buildEncoder_exec_matches_source P enc cfg ev fl0 hN hC fuel)
+
+/-- the source text of the sampler-wrapping literal, as the translation of `buildOptions` carries it -/
+def samplerText : Val :=
+  match buildOptions_body.tl.tl.tl.tl.tl.tl.hd with
+  | .seq _ (.ite _ (.assign _ [.call _ [_, .call _ [.call _ (.lit t :: _)]]]) _) => t
+  | _ => .list []
+
+/-- the options `Build` passes to `New`, in order: the error output; Development; AddCaller unless disabled;
+    AddStacktrace (at Warn in development, else Error) unless disabled; the sampler wrapper iff Sampling is set (the closure
+    holds the sampling configuration); the initial fields iff there are any — one `Any` per key, in SORTED key order -/
+def optsSpec (P : Par) (errSink : Val) (dev dc ds : Bool) (samp ifs : List Val) : List Val :=
+  [conV "ErrorOutput" [errSink]]
+  ++ (if dev then [conV "Development" []] else [])
+  ++ (if dc then [] else [conV "AddCaller" []])
+  ++ (if ds then [] else [conV "AddStacktrace" [.int (if dev then 1 else 2)]])
+  ++ (if samp.isEmpty then [] else [conV "WrapCore" [.list [samplerText, .list samp, .list samp]]])
+  ++ (if ifs.isEmpty then [] else
+        [conV "Fields" [.list ((P.sort (P.keys (.list ifs))).map fun k => conV "Any" [k, P.mapGet (.list ifs) k])]])
+
+def boJunk : Option Val → Env
+  | none => []
+  | some v => [("l5", v)]
+
+theorem buildOptions_keys_loop (P : Par) (rec : Stmt → State → GoMini.Out) (p0 l0 l1 l2 l3 : Val) (fl : Env) :
+    ∀ (ks acc : List Val) (i : Nat) (t : Option Val),
+    ∃ t', rangeRun (execS (X P) rec buildOptions_loop0.rbody) .blank (.loc "l5") ks i
+        ⟨[("p0", p0), ("l0", l0), ("l1", l1), ("l2", l2), ("l3", l3), ("l4", .list acc)] ++ boJunk t, fl⟩ =
+      .normal ⟨[("p0", p0), ("l0", l0), ("l1", l1), ("l2", l2), ("l3", l3), ("l4", .list (acc ++ ks))] ++ boJunk t', fl⟩ := by
+  intro ks
+  induction ks with
+  | nil => intro acc i t; exact ⟨t, by simp [rangeRun]⟩
+  | cons k r ih =>
+    intro acc i t
+    obtain ⟨t', h⟩ := ih (acc ++ [k]) (i + 1) (some k)
+    refine ⟨t', ?_⟩
+    cases t <;>
+      simp [rangeRun, buildOptions_loop0, Stmt.rbody, boJunk, State.assign1, Env.set] <;>
+      simpa [boJunk, buildOptions_loop0, Stmt.rbody, List.append_assoc] using h
+
+theorem buildOptions_fields_loop (P : Par) (rec : Stmt → State → GoMini.Out) (p0 l0 l1 l2 l4 m : Val) (fl : Env)
+    (hm : Env.get "initialFields" fl = some m) (t5 : Option Val) :
+    ∀ (ks acc : List Val) (i : Nat) (t : Option Val),
+    ∃ t', rangeRun (execS (X P) rec buildOptions_loop1.rbody) .blank (.loc "l6") ks i
+        ⟨[("p0", p0), ("l0", l0), ("l1", l1), ("l2", l2), ("l3", .list acc), ("l4", l4)] ++ boJunk t5 ++
+          (match t with | some v => [("l6", v)] | none => []), fl⟩ =
+      .normal ⟨[("p0", p0), ("l0", l0), ("l1", l1), ("l2", l2),
+          ("l3", .list (acc ++ ks.map fun k => conV "Any" [k, P.mapGet m k])), ("l4", l4)] ++ boJunk t5 ++
+          (match t' with | some v => [("l6", v)] | none => []), fl⟩ := by
+  intro ks
+  induction ks with
+  | nil => intro acc i t; exact ⟨t, by cases t <;> simp [rangeRun]⟩
+  | cons k r ih =>
+    intro acc i t
+    obtain ⟨t', h⟩ := ih (acc ++ [conV "Any" [k, P.mapGet m k]]) (i + 1) (some k)
+    refine ⟨t', ?_⟩
+    cases t5 <;> cases t <;>
+      simp [rangeRun, buildOptions_loop1, Stmt.rbody, boJunk, State.assign1, Env.set, hm] <;>
+      simpa [boJunk, buildOptions_loop1, Stmt.rbody, List.append_assoc] using h
+
+/-- the options before the initial fields -/
+def opts7 (errSink : Val) (dev dc ds : Bool) (samp : List Val) : List Val :=
+  [conV "ErrorOutput" [errSink]]
+  ++ (if dev then [conV "Development" []] else [])
+  ++ (if dc then [] else [conV "AddCaller" []])
+  ++ (if ds then [] else [conV "AddStacktrace" [.int (if dev then 1 else 2)]])
+  ++ (if samp.isEmpty then [] else [conV "WrapCore" [.list [samplerText, .list samp, .list samp]]])
+
+set_option maxRecDepth 8000 in
+theorem buildOptions_prefix (P : Par) (rec : Stmt → State → GoMini.Out) (errSink : Val) (dev dc ds : Bool) (samp : List Val) (fl : Env)
+    (h1 : Env.get "development" fl = some (.bool dev)) (h2 : Env.get "disableCaller" fl = some (.bool dc))
+    (h3 : Env.get "disableStacktrace" fl = some (.bool ds)) (h4 : Env.get "sampling" fl = some (.list samp)) :
+    execS (X P) rec buildOptions_body ⟨[("p0", errSink)], fl⟩ =
+      execS (X P) rec buildOptions_body.tl.tl.tl.tl.tl.tl.tl
+        ⟨[("p0", errSink), ("l0", .list (opts7 errSink dev dc ds samp)), ("l1", .int (if dev then 1 else 2)), ("l2", .list samp)], fl⟩ := by
+  have hb : buildOptions_body = .seq buildOptions_body.hd (.seq buildOptions_body.tl.hd (.seq buildOptions_body.tl.tl.hd
+      (.seq buildOptions_body.tl.tl.tl.hd (.seq buildOptions_body.tl.tl.tl.tl.hd (.seq buildOptions_body.tl.tl.tl.tl.tl.hd
+      (.seq buildOptions_body.tl.tl.tl.tl.tl.tl.hd buildOptions_body.tl.tl.tl.tl.tl.tl.tl)))))) := rfl
+  rw [hb]
+  generalize buildOptions_body.tl.tl.tl.tl.tl.tl.tl = rest
+  simp only [execS_seq]
+  cases samp with
+  | nil =>
+    cases dev <;> cases dc <;> cases ds <;>
+      simp [buildOptions_body, Stmt.hd, Stmt.tl, h1, h2, h3, h4, opts7, State.assign1, Env.set]
+  | cons x r =>
+    have hp : ¬ ((r.length : Int) + 1 = 0) := by omega
+    cases dev <;> cases dc <;> cases ds <;>
+      simp [buildOptions_body, Stmt.hd, Stmt.tl, h1, h2, h3, h4, hp, opts7, samplerText, State.assign1, Env.set]
+
+set_option maxRecDepth 8000 in
+theorem buildOptions_exec_matches_source (P : Par) (errSink : Val) (dev dc ds : Bool) (samp ifs : List Val) (fl : Env)
+    (h1 : Env.get "development" fl = some (.bool dev)) (h2 : Env.get "disableCaller" fl = some (.bool dc))
+    (h3 : Env.get "disableStacktrace" fl = some (.bool ds)) (h4 : Env.get "sampling" fl = some (.list samp))
+    (h5 : Env.get "initialFields" fl = some (.list ifs)) (fuel : Nat) :
+    (exec (X P) (fuel + 1) buildOptions_body ⟨[("p0", errSink)], fl⟩).fin =
+      some ([.list (optsSpec P errSink dev dc ds samp ifs)], fl) := by
+  rw [exec_succ, buildOptions_prefix P _ errSink dev dc ds samp fl h1 h2 h3 h4]
+  have hspec : optsSpec P errSink dev dc ds samp ifs = opts7 errSink dev dc ds samp ++
+      (if ifs.isEmpty then [] else
+        [conV "Fields" [.list ((P.sort (P.keys (.list ifs))).map fun k => conV "Any" [k, P.mapGet (.list ifs) k])]]) := by
+    simp [optsSpec, opts7, List.append_assoc]
+  rw [hspec]
+  generalize opts7 errSink dev dc ds samp = o
+  generalize (Val.int (if dev then 1 else 2)) = l1
+  cases ifs with
+  | nil => simp [buildOptions_body, Stmt.tl, h5]
+  | cons x r =>
+    have hp : ((r.length : Int) + 1 > 0) := by omega
+    have hp' : ¬ ((r.length : Int) + 1 = 0) := by omega
+    obtain ⟨t5, hk⟩ := buildOptions_keys_loop P (exec (X P) fuel) errSink (.list o) l1 (.list samp) (.list []) fl
+      (P.keys (.list (x :: r))) [] 0 none
+    obtain ⟨t6, hf⟩ := buildOptions_fields_loop P (exec (X P) fuel) errSink (.list o) l1 (.list samp)
+      (.list (P.sort (P.keys (.list (x :: r))))) (.list (x :: r)) fl h5 t5 (P.sort (P.keys (.list (x :: r)))) [] 0 none
+    have hx0 : ∀ σ, execS (X P) (exec (X P) fuel) buildOptions_loop0 σ = execS (X P) (exec (X P) fuel)
+        (.range .blank (.loc "l5") (.call "InitialFields.keys" [.fld "initialFields"]) buildOptions_loop0.rbody) σ := fun _ => rfl
+    have hx1 : ∀ σ, execS (X P) (exec (X P) fuel) buildOptions_loop1 σ = execS (X P) (exec (X P) fuel)
+        (.range .blank (.loc "l6") (.loc "l4") buildOptions_loop1.rbody) σ := fun _ => rfl
+    simp only [boJunk, List.append_nil, List.nil_append] at hk hf
+    simp [buildOptions_body, Stmt.tl, h5, hp, hp', hx0, hx1, State.assign1, Env.set]
+    rw [hk]
+    cases t5 <;>
+      (simp [boJunk, Env.get, Env.set, hx1] at hf ⊢
+       rw [hf]
+       cases t6 <;> simp [Env.get])
+
+/-- **buildOptions_matches_source** -/
+theorem buildOptions_matches_source (P : Par) (errSink : Val) (dev dc ds : Bool) (samp ifs : List Val) (fl : Env)
+    (h1 : Env.get "development" fl = some (.bool dev)) (h2 : Env.get "disableCaller" fl = some (.bool dc))
+    (h3 : Env.get "disableStacktrace" fl = some (.bool ds)) (h4 : Env.get "sampling" fl = some (.list samp))
+    (h5 : Env.get "initialFields" fl = some (.list ifs)) (fuel : Nat) :
+    run (X P) (fuel + 1) "buildOptions" [errSink] fl = .done [.list (optsSpec P errSink dev dc ds samp ifs)] fl :=
+  run_of_fin (X P) _ _ Gen.TransOpen.buildOptions _ _ _ _ rfl rfl
+    (buildOptions_exec_matches_source P errSink dev dc ds samp ifs fl h1 h2 h3 h4 h5 fuel)
+
+/-- the logger `Build` returns: `New` over the core (encoder, the combined OUTPUT sinks, the level) with `buildOptions`
+    over the combined ERROR sinks, then the caller's options if any -/
+def buildLogger (P : Par) (encoder : List Val) (level : Val) (O E : OA) (dev dc ds : Bool) (samp ifs opts : List Val) : Val :=
+  if opts.isEmpty then
+    .list [conV "zap.New" [conV "zapcore.NewCore" [.list encoder, combineSpec O.w, level],
+      .list (optsSpec P (combineSpec E.w) dev dc ds samp ifs)]]
+  else
+    .list [TransOpen.nm "Logger.WithOptions",
+      .list [conV "zap.New" [conV "zapcore.NewCore" [.list encoder, combineSpec O.w, level],
+        .list (optsSpec P (combineSpec E.w) dev dc ds samp ifs)]], .list opts]
+
+def missingLevel : Bytes := [109, 105, 115, 115, 105, 110, 103, 32, 76, 101, 118, 101, 108]
+
+/-- `Config.Build`: the encoder is built first and its error returned before anything else happens; then the level is
+    checked — BEFORE any sink is opened; then `openSinks`; only if everything succeeded is a logger made -/
+def buildSpec (P : Par) (enc cfg : Val) (level outs errs : List Val) (dev dc ds : Bool) (samp ifs opts ev : List Val) :
+    List Val × List Val :=
+  if (P.newEncoder enc cfg).2.isEmpty then
+    if level.isEmpty then
+      ([.list [], errV "errors.New" [.bytes missingLevel]], ev ++ [.list [TransOpen.nm "newEncoder", enc, cfg]])
+    else if (openR P outs (ev ++ [.list [TransOpen.nm "newEncoder", enc, cfg]])).e.isEmpty then
+      if (openR P errs (openR P outs (ev ++ [.list [TransOpen.nm "newEncoder", enc, cfg]])).ev).e.isEmpty then
+        ([buildLogger P (P.newEncoder enc cfg).1 (.list level) (openR P outs (ev ++ [.list [TransOpen.nm "newEncoder", enc, cfg]]))
+            (openR P errs (openR P outs (ev ++ [.list [TransOpen.nm "newEncoder", enc, cfg]])).ev) dev dc ds samp ifs opts, .list []],
+          (openSinksSpec P outs errs (ev ++ [.list [TransOpen.nm "newEncoder", enc, cfg]])).2)
+      else
+        ([.list [], .list (openR P errs (openR P outs (ev ++ [.list [TransOpen.nm "newEncoder", enc, cfg]])).ev).e],
+          (openSinksSpec P outs errs (ev ++ [.list [TransOpen.nm "newEncoder", enc, cfg]])).2)
+    else
+      ([.list [], .list (openR P outs (ev ++ [.list [TransOpen.nm "newEncoder", enc, cfg]])).e],
+        (openSinksSpec P outs errs (ev ++ [.list [TransOpen.nm "newEncoder", enc, cfg]])).2)
+  else ([.list [], .list (P.newEncoder enc cfg).2], ev ++ [.list [TransOpen.nm "newEncoder", enc, cfg]])
+
+theorem Build_exec_matches_source (P : Par) (enc cfg : Val) (level outs errs : List Val) (dev dc ds : Bool)
+    (samp ifs opts ev : List Val) (fl0 : Env)
+    (hN : Env.get "encoding" fl0 = some enc) (hC : Env.get "encoderConfig" fl0 = some cfg)
+    (hL : Env.get "level" fl0 = some (.list level))
+    (hO : Env.get "outputPaths" fl0 = some (.list outs)) (hE : Env.get "errorOutputPaths" fl0 = some (.list errs))
+    (h1 : Env.get "development" fl0 = some (.bool dev)) (h2 : Env.get "disableCaller" fl0 = some (.bool dc))
+    (h3 : Env.get "disableStacktrace" fl0 = some (.bool ds)) (h4 : Env.get "sampling" fl0 = some (.list samp))
+    (h5 : Env.get "initialFields" fl0 = some (.list ifs)) (fuel : Nat) :
+    (exec (X P) (fuel + 4) Build_body ⟨[("p0", .list opts)], ("ev", .list ev) :: fl0⟩).fin =
+      some ((buildSpec P enc cfg level outs errs dev dc ds samp ifs opts ev).1,
+        ("ev", .list (buildSpec P enc cfg level outs errs dev dc ds samp ifs opts ev).2) :: fl0) := by
+  have he := buildEncoder_exec_matches_source P enc cfg ev fl0 hN hC (fuel + 2)
+  have hs := openSinks_exec_matches_source P outs errs (ev ++ [.list [TransOpen.nm "newEncoder", enc, cfg]]) fl0 hO hE fuel
+  have hopt : ∀ (errSink : Val) (ev' : List Val),
+      (exec (X P) (fuel + 3) buildOptions_body ⟨[("p0", errSink)], ("ev", .list ev') :: fl0⟩).fin =
+        some ([.list (optsSpec P errSink dev dc ds samp ifs)], ("ev", .list ev') :: fl0) := fun errSink ev' =>
+    buildOptions_exec_matches_source P errSink dev dc ds samp ifs _ (by simpa [Env.get] using h1) (by simpa [Env.get] using h2)
+      (by simpa [Env.get] using h3) (by simpa [Env.get] using h4) (by simpa [Env.get] using h5) (fuel + 2)
+  rw [exec_succ]
+  simp only [buildSpec]
+  cases hne : (P.newEncoder enc cfg).2 with
+  | cons e0 es =>
+    have hp : ¬ ((es.length : Int) + 1 = 0) := by omega
+    rw [hne] at he
+    simp [Build_body, retK_of_fin _ _ _ _ _ _ _ he, hp]
+  | nil =>
+    rw [hne] at he
+    cases level with
+    | nil =>
+      simp [Build_body, retK_of_fin _ _ _ _ _ _ _ he, Env.get, hL, Val.beqs, missingLevel, errV]
+    | cons l0 ls =>
+      simp only [openSinksSpec] at hs ⊢
+      generalize openR P outs (ev ++ [.list [TransOpen.nm "newEncoder", enc, cfg]]) = O at hs ⊢
+      obtain ⟨w, c, e, ev1⟩ := O
+      cases e with
+      | cons e0 es =>
+        have hp : ¬ ((es.length : Int) + 1 = 0) := by omega
+        simp only [List.isEmpty_cons, Bool.false_eq_true, if_false] at hs
+        simp [Build_body, retK_of_fin _ _ _ _ _ _ _ he, retK_of_fin _ _ _ _ _ _ _ hs, Env.get, hL, Val.beqs, hp]
+      | nil =>
+        simp only [List.isEmpty_nil, if_true] at hs ⊢
+        generalize openR P errs ev1 = E at hs ⊢
+        obtain ⟨w', c', e', ev2⟩ := E
+        cases e' with
+        | cons e0 es =>
+          have hp : ¬ ((es.length : Int) + 1 = 0) := by omega
+          simp only [List.isEmpty_cons, Bool.false_eq_true, if_false] at hs
+          simp [Build_body, retK_of_fin _ _ _ _ _ _ _ he, retK_of_fin _ _ _ _ _ _ _ hs, Env.get, hL, Val.beqs, hp]
+        | nil =>
+          simp only [List.isEmpty_nil, if_true] at hs
+          have ho := hopt (combineSpec w') ev2
+          cases opts with
+          | nil =>
+            simp [Build_body, retK_of_fin _ _ _ _ _ _ _ he, retK_of_fin _ _ _ _ _ _ _ hs, retK_of_fin1 _ _ _ _ _ _ ho,
+              Env.get, hL, Val.beqs, buildLogger]
+          | cons o0 os =>
+            have hp : ((os.length : Int) + 1 > 0) := by omega
+            have hp' : ¬ ((os.length : Int) + 1 = 0) := by omega
+            simp [Build_body, retK_of_fin _ _ _ _ _ _ _ he, retK_of_fin _ _ _ _ _ _ _ hs, retK_of_fin1 _ _ _ _ _ _ ho,
+              Env.get, hL, Val.beqs, buildLogger, hp, hp']
+
+/-- **Build_matches_source** -/
+theorem Build_matches_source (P : Par) (enc cfg : Val) (level outs errs : List Val) (dev dc ds : Bool)
+    (samp ifs opts ev : List Val) (fl0 : Env)
+    (hN : Env.get "encoding" fl0 = some enc) (hC : Env.get "encoderConfig" fl0 = some cfg)
+    (hL : Env.get "level" fl0 = some (.list level))
+    (hO : Env.get "outputPaths" fl0 = some (.list outs)) (hE : Env.get "errorOutputPaths" fl0 = some (.list errs))
+    (h1 : Env.get "development" fl0 = some (.bool dev)) (h2 : Env.get "disableCaller" fl0 = some (.bool dc))
+    (h3 : Env.get "disableStacktrace" fl0 = some (.bool ds)) (h4 : Env.get "sampling" fl0 = some (.list samp))
+    (h5 : Env.get "initialFields" fl0 = some (.list ifs)) (fuel : Nat) :
+    run (X P) (fuel + 4) "Build" [.list opts] (("ev", .list ev) :: fl0) =
+      .done (buildSpec P enc cfg level outs errs dev dc ds samp ifs opts ev).1
+        (("ev", .list (buildSpec P enc cfg level outs errs dev dc ds samp ifs opts ev).2) :: fl0) :=
+  run_of_fin (X P) _ _ Gen.TransOpen.Build _ _ _ _ rfl rfl
+    (Build_exec_matches_source P enc cfg level outs errs dev dc ds samp ifs opts ev fl0 hN hC hL hO hE h1 h2 h3 h4 h5 fuel)
+
+/-! ### the composed source IS the hand model `OpenBuild.build` -/
+
+/-- the sinks of the paths that opened, in path order -/
+def opened (P : Par) (ps : List Val) : List Val := (ps.filter (opens P)).map fun p => .list (P.newSink p).1
+def sinkEv (ps : List Val) : List Val := ps.map fun p => .list [TransOpen.nm "sinkRegistry.newSink", p]
+
+theorem openR_facts (P : Par) (ps ev : List Val) :
+    (openR P ps ev).e.isEmpty = (ps.map (opens P)).all id ∧ (openR P ps ev).c = opened P ps ∧
+    (openR P ps ev).w = opened P ps ∧ (openR P ps ev).ev = ev ++ sinkEv ps := by
+  have h := open_is_openAll P ps ev
+  simp only at h
+  obtain ⟨h1, h2, h3, _, _, _, h7⟩ := h
+  refine ⟨?_, h2, by rw [h3, h2]; rfl, h7⟩
+  rw [h1]; simp only [OpenBuild.openAll]; split <;> simp_all
+
+theorem openAll_facts (outs : List Bool) :
+    (OpenBuild.openAll outs).err = !(outs.all id) ∧ (OpenBuild.openAll outs).opened.length = (outs.filter id).length ∧
+    (OpenBuild.openAll outs).closed.length = (if outs.all id then 0 else (outs.filter id).length) ∧
+    (OpenBuild.openAll outs).returned.length = (if outs.all id then (outs.filter id).length else 0) := by
+  simp only [OpenBuild.openAll]
+  split <;> simp_all [openedIdx_length]
+
+theorem opened_length (P : Par) (ps : List Val) : (opened P ps).length = ((ps.map (opens P)).filter id).length := by
+  simp [opened, List.filter_map, Function.comp_def]
+
+/-- **Build_is_build**: with `outs[i]` / `errs[i]` = "path i opens", the level present iff the field is not the zero
+    value, and the encoder stage failing iff `newEncoder` returns an error, the translated `Build` stops at the stage the
+    hand model `OpenBuild.build` says, returns a logger exactly at `.done`, and its recorded calls are the model's
+    opened / closed sets: nothing is opened before the encoder and the level are validated; a failing output list closes
+    what it opened; a failing error-output list closes what it opened AND the returned close function of the outputs
+    (holding all of them) is called -/
+theorem Build_is_build (P : Par) (enc cfg : Val) (level outs errs : List Val) (dev dc ds : Bool) (samp ifs opts ev : List Val) :
+    let B := OpenBuild.build ⟨if (P.newEncoder enc cfg).2.isEmpty then .ok else .ctorErr, !level.isEmpty,
+      outs.map (opens P), errs.map (opens P)⟩
+    let S := buildSpec P enc cfg level outs errs dev dc ds samp ifs opts ev
+    (B.stage = .done ↔ S.1[1]? = some (.list [])) ∧
+    S.2 = ev ++ [.list [TransOpen.nm "newEncoder", enc, cfg]] ++
+      (match B.stage with
+       | .encoder => []
+       | .level => []
+       | .out => sinkEv outs ++ closeEv (opened P outs)
+       | .errout => sinkEv outs ++ sinkEv errs ++ closeEv (opened P errs) ++
+           [.list [TransOpen.nm "Closure.call", .list [closeText, .list (opened P outs)]]]
+       | .done => sinkEv outs ++ sinkEv errs) ∧
+    B.openedOut.length = (match B.stage with | .encoder => 0 | .level => 0 | _ => (opened P outs).length) ∧
+    B.closedOut.length = (match B.stage with | .out => (opened P outs).length | .errout => (opened P outs).length | _ => 0) ∧
+    B.openedErr.length = (match B.stage with | .errout => (opened P errs).length | .done => (opened P errs).length | _ => 0) ∧
+    B.closedErr.length = (match B.stage with | .errout => (opened P errs).length | _ => 0) := by
+  intro B S
+  have fo := fun ev => openR_facts P outs ev
+  have fe := fun ev => openR_facts P errs ev
+  have ao := openAll_facts (outs.map (opens P))
+  have ae := openAll_facts (errs.map (opens P))
+  have lo := opened_length P outs
+  have le := opened_length P errs
+  obtain ⟨ao1, ao2, ao3, ao4⟩ := ao
+  obtain ⟨ae1, ae2, ae3, ae4⟩ := ae
+  simp only [B, S, OpenBuild.build, buildSpec, openSinksSpec]
+  cases hn : (P.newEncoder enc cfg).2.isEmpty
+  · cases hx : (P.newEncoder enc cfg).2 with
+    | nil => simp [hx] at hn
+    | cons e0 es => simp
+  · cases level with
+    | nil => simp [errV]
+    | cons l0 ls =>
+      obtain ⟨fo1, fo2, fo3, fo4⟩ := fo (ev ++ [.list [TransOpen.nm "newEncoder", enc, cfg]])
+      generalize openR P outs (ev ++ [.list [TransOpen.nm "newEncoder", enc, cfg]]) = O at fo1 fo2 fo3 fo4 ⊢
+      obtain ⟨w, c, e, ev1⟩ := O
+      simp only at fo1 fo2 fo3 fo4
+      subst fo2 fo3 fo4
+      obtain ⟨fe1, fe2, fe3, fe4⟩ := fe (ev ++ [.list [TransOpen.nm "newEncoder", enc, cfg]] ++ sinkEv outs)
+      generalize openR P errs (ev ++ [.list [TransOpen.nm "newEncoder", enc, cfg]] ++ sinkEv outs) = E at fe1 fe2 fe3 fe4 ⊢
+      obtain ⟨w', c', e', ev2⟩ := E
+      simp only at fe1 fe2 fe3 fe4
+      subst fe2 fe3 fe4
+      cases e with
+      | cons e0 es =>
+        have ho : (outs.map (opens P)).all id = false := by rw [← fo1]; rfl
+        simp [ho, ao1, ao2, ao3, lo, List.append_assoc]
+      | nil =>
+        have ho : (outs.map (opens P)).all id = true := by rw [← fo1]; rfl
+        cases e' with
+        | cons e0 es =>
+          have he : (errs.map (opens P)).all id = false := by rw [← fe1]; rfl
+          simp [ho, he, ao1, ae1, ao2, ae2, ao3, ae3, ao4, lo, le, List.append_assoc]
+        | nil =>
+          have he : (errs.map (opens P)).all id = true := by rw [← fe1]; rfl
+          simp [ho, he, ao1, ae1, ao2, ae2, ao3, ae3, ao4, lo, le, List.append_assoc]
+
+/-! ### `normalizeScheme` -/
+
+def letterI (n : Int) : Bool := (decide (97 ≤ n) && decide (n ≤ 122)) || (decide (65 ≤ n) && decide (n ≤ 90))
+def restI (n : Int) : Bool :=
+  letterI n || (decide (48 ≤ n) && decide (n ≤ 57)) || ((decide (n = 46) || decide (n = 43)) || decide (n = 45))
+
+theorem letterI_eq (b : UInt8) : letterI b.toNat = OpenBuild.isLetter b := by
+  simp only [letterI, OpenBuild.isLetter, OpenBuild.isUpper, OpenBuild.isLower]
+  have h1 : (decide ((97 : Int) ≤ b.toNat)) = decide ((97 : UInt8) ≤ b) :=
+    decide_eq_decide.mpr (by rw [UInt8.le_iff_toNat_le]; simp; omega)
+  have h2 : (decide ((b.toNat : Int) ≤ 122)) = decide (b ≤ (122 : UInt8)) :=
+    decide_eq_decide.mpr (by rw [UInt8.le_iff_toNat_le]; simp; omega)
+  have h3 : (decide ((65 : Int) ≤ b.toNat)) = decide ((65 : UInt8) ≤ b) :=
+    decide_eq_decide.mpr (by rw [UInt8.le_iff_toNat_le]; simp; omega)
+  have h4 : (decide ((b.toNat : Int) ≤ 90)) = decide (b ≤ (90 : UInt8)) :=
+    decide_eq_decide.mpr (by rw [UInt8.le_iff_toNat_le]; simp; omega)
+  rw [h1, h2, h3, h4, Bool.or_comm]
+
+theorem restI_eq (b : UInt8) : restI b.toNat = OpenBuild.schemeRest b := by
+  simp only [restI, OpenBuild.schemeRest, letterI_eq, OpenBuild.isDigit]
+  have h1 : (decide ((48 : Int) ≤ b.toNat)) = decide ((48 : UInt8) ≤ b) :=
+    decide_eq_decide.mpr (by rw [UInt8.le_iff_toNat_le]; simp; omega)
+  have h2 : (decide ((b.toNat : Int) ≤ 57)) = decide (b ≤ (57 : UInt8)) :=
+    decide_eq_decide.mpr (by rw [UInt8.le_iff_toNat_le]; simp; omega)
+  have h3 : ∀ k : Nat, k < 256 → (decide ((b.toNat : Int) = (k : Int))) = (b == UInt8.ofNat k) := by
+    intro k hk
+    rw [Bool.eq_iff_iff]; simp only [decide_eq_true_eq, beq_iff_eq]
+    exact byte_eq_lit b k hk
+  have e46 := h3 46 (by omega); have e43 := h3 43 (by omega); have e45 := h3 45 (by omega)
+  have e46' : decide ((b.toNat : Int) = 46) = (b == 46) := e46
+  have e43' : decide ((b.toNat : Int) = 43) = (b == 43) := e43
+  have e45' : decide ((b.toNat : Int) = 45) = (b == 45) := e45
+  rw [h1, h2, e46', e43', e45']
+  simp [Bool.or_assoc]
+
+def nsJ : Option Val → Env
+  | none => []
+  | some v => [("l2", v)]
+
+def nsFmt : Bytes := [109, 97, 121, 32, 110, 111, 116, 32, 99, 111, 110, 116, 97, 105, 110, 32, 37, 113]
+
+/-- one iteration: the byte at the index is classified; a byte outside the RFC 3986 set returns the error naming it -/
+theorem normalizeScheme_iter (P : Par) (rec : Stmt → State → GoMini.Out) (s : Bytes) (l0 : Val) (fl : Env) (i : Nat)
+    (hi : i < s.length) (t : Option Val) :
+    execS (X P) rec normalizeScheme_loop0.lbody ⟨[("p0", .bytes s), ("l0", l0), ("l1", .int i)] ++ nsJ t, fl⟩ =
+      if restI s[i].toNat then .cont ⟨[("p0", .bytes s), ("l0", l0), ("l1", .int i)] ++ nsJ (some (.int s[i].toNat)), fl⟩
+      else .ret [.bytes [], errV "fmt.Errorf" [.bytes nsFmt, .int s[i].toNat]]
+        ⟨[("p0", .bytes s), ("l0", l0), ("l1", .int i)] ++ nsJ (some (.int s[i].toNat)), fl⟩ := by
+  have hix := indexVal_bytes s i hi
+  generalize (s[i].toNat : Int) = n at hix ⊢
+  have m1 : ∀ σ' : State, Env.get "l2" σ'.loc = some (.int n) → matchCase (X P) σ' (.bool true)
+      [((Expr.bin BinOp.le (Expr.lit (Val.int 97)) (Expr.loc "l2")).and
+          (Expr.bin BinOp.le (Expr.loc "l2") (Expr.lit (Val.int 122)))).or
+        ((Expr.bin BinOp.le (Expr.lit (Val.int 65)) (Expr.loc "l2")).and
+          (Expr.bin BinOp.le (Expr.loc "l2") (Expr.lit (Val.int 90))))] = .ok (letterI n) := by
+    intro σ' h; apply matchCase_true1
+    simp [h, letterI, andK_ok_bool, orK_ok_bool, -andK_bool, -orK_bool]
+  have m2 : ∀ σ' : State, Env.get "l2" σ'.loc = some (.int n) → matchCase (X P) σ' (.bool true)
+      [(Expr.bin BinOp.le (Expr.lit (Val.int 48)) (Expr.loc "l2")).and
+        (Expr.bin BinOp.le (Expr.loc "l2") (Expr.lit (Val.int 57)))] = .ok (decide (48 ≤ n) && decide (n ≤ 57)) := by
+    intro σ' h; apply matchCase_true1
+    simp [h, andK_ok_bool, orK_ok_bool, -andK_bool, -orK_bool]
+  have m3 : ∀ σ' : State, Env.get "l2" σ'.loc = some (.int n) → matchCase (X P) σ' (.bool true)
+      [((Expr.bin BinOp.eq (Expr.loc "l2") (Expr.lit (Val.int 46))).or
+          (Expr.bin BinOp.eq (Expr.loc "l2") (Expr.lit (Val.int 43)))).or
+        (Expr.bin BinOp.eq (Expr.loc "l2") (Expr.lit (Val.int 45)))] =
+        .ok ((decide (n = 46) || decide (n = 43)) || decide (n = 45)) := by
+    intro σ' h; apply matchCase_true1
+    simp [h, andK_ok_bool, orK_ok_bool, -andK_bool, -orK_bool]
+  cases t <;>
+    (simp [normalizeScheme_loop0, Stmt.lbody, nsJ, hix, State.assign1, Env.set, andK_ok_bool, orK_ok_bool, -andK_bool, -orK_bool]
+     rw [m1 _ (by simp [Env.get]), m2 _ (by simp [Env.get]), m3 _ (by simp [Env.get])]
+     simp only [restI]
+     rcases Bool.eq_false_or_eq_true (letterI n) with hA | hA <;>
+     rcases Bool.eq_false_or_eq_true (decide (48 ≤ n) && decide (n ≤ 57)) with hB | hB <;>
+     rcases Bool.eq_false_or_eq_true ((decide (n = 46) || decide (n = 43)) || decide (n = 45)) with hC | hC <;>
+     simp only [hA, hB, hC] <;> simp [Env.get, nsFmt, errV])
+
+/-- the first byte (after the first) outside the RFC 3986 set decides -/
+def nsRes (P : Par) (s rest : Bytes) : List Val :=
+  match rest.find? (fun b => !restI b.toNat) with
+  | none => [.bytes (P.toLower s), .list []]
+  | some b => [.bytes [], errV "fmt.Errorf" [.bytes nsFmt, .int b.toNat]]
+
+theorem normalizeScheme_loop (P : Par) (s : Bytes) (l0 : Val) (fl : Env) (hs : (s.length : Int) < 9223372036854775808)
+    (rec' : Stmt → State → GoMini.Out) :
+    ∀ (rest pre : Bytes) (t : Option Val) (fuel : Nat), pre ++ rest = s →
+      ((execS (X P) (exec (X P) (fuel + rest.length)) normalizeScheme_loop0
+          ⟨[("p0", .bytes s), ("l0", l0), ("l1", .int pre.length)] ++ nsJ t, fl⟩).andThen
+        (execS (X P) rec' normalizeScheme_body.tl.tl.tl)).fin = some (nsRes P s rest, fl) := by
+  have hL : normalizeScheme_loop0 = .loop normalizeScheme_loop0.lcond normalizeScheme_loop0.lpost normalizeScheme_loop0.lbody := rfl
+  intro rest
+  induction rest with
+  | nil =>
+    intro pre t fuel hp
+    simp only [List.append_nil] at hp
+    subst hp
+    rw [hL, execS_loop]
+    cases t <;> simp [normalizeScheme_loop0, Stmt.lcond, nsJ, Env.get, nsRes, normalizeScheme_body, Stmt.tl]
+  | cons b r ih =>
+    intro pre t fuel hp
+    have hi : pre.length < s.length := by rw [← hp]; simp
+    have hb : s[pre.length] = b := by subst hp; simp
+    have hcond : evalE (X P) ⟨[("p0", .bytes s), ("l0", l0), ("l1", .int pre.length)] ++ nsJ t, fl⟩
+        normalizeScheme_loop0.lcond = .ok (.bool true) := by
+      have : (pre.length : Int) < s.length := by omega
+      cases t <;> simp [normalizeScheme_loop0, Stmt.lcond, nsJ, Env.get, this]
+    rw [hL, execS_loop, hcond]
+    simp only [Res.out_ok, condK_bool, if_true]
+    rw [← hL, normalizeScheme_iter P _ s l0 fl pre.length hi t, hb]
+    cases hr : restI b.toNat
+    · simp [nsRes, List.find?, hr]
+    · have hw : wrap .int ((pre.length : Int) + 1) = ((pre ++ [b]).length : Nat) := by
+        rw [wrap_int_id] <;> (try simp) <;> omega
+      have hrec : ∀ σ, exec (X P) (fuel + (r.length + 1)) normalizeScheme_loop0 σ =
+          execS (X P) (exec (X P) (fuel + r.length)) normalizeScheme_loop0 σ := fun σ => by
+        rw [show fuel + (r.length + 1) = (fuel + r.length) + 1 by omega, exec_succ]
+      have := ih (pre ++ [b]) (some (.int b.toNat)) fuel (by simpa using hp)
+      have hpost : normalizeScheme_loop0.lpost =
+          .assign [.loc "l1"] [.bin (.add .int) (.loc "l1") (.lit (.int 1))] := rfl
+      simp only [List.length_cons] at *
+      simp [hpost, nsJ, Env.get, Env.set, State.assign1, hw, hrec] at this ⊢
+      simpa [nsRes, List.find?, hr, nsJ] using this
+
+def nsMustStart : Bytes := [109, 117, 115, 116, 32, 115, 116, 97, 114, 116, 32, 119, 105, 116, 104, 32, 97, 32, 108, 101, 116, 116, 101, 114]
+
+/-- `normalizeScheme` on a non-empty string (the callers check `scheme == ""` first; on the empty string `s[0]` panics):
+    the first byte must be an ASCII letter, every further byte a letter, digit, `.`, `+` or `-`; the bytes are validated
+    BEFORE lower-casing, and only a valid scheme reaches `strings.ToLower` -/
+def normalizeSpec (P : Par) (c : UInt8) (r : Bytes) : List Val :=
+  if letterI c.toNat then nsRes P (c :: r) r else [.bytes [], errV "errors.New" [.bytes nsMustStart]]
+
+theorem normalizeScheme_matches_source (P : Par) (c : UInt8) (r : Bytes) (fl : Env)
+    (hs : ((c :: r).length : Int) < 9223372036854775808) (fuel : Nat) :
+    run (X P) (fuel + r.length + 1) "normalizeScheme" [.bytes (c :: r)] fl = .done (normalizeSpec P c r) fl := by
+  refine run_of_fin (X P) _ _ Gen.TransOpen.normalizeScheme _ _ _ _ rfl rfl ?_
+  show (exec (X P) (fuel + r.length + 1) normalizeScheme_body ⟨[("p0", .bytes (c :: r))], fl⟩).fin = _
+  have hb : normalizeScheme_body = .seq .skip (.seq normalizeScheme_body.tl.hd
+      (.seq (.seq normalizeScheme_body.tl.tl.hd.hd normalizeScheme_loop0) normalizeScheme_body.tl.tl.tl)) := rfl
+  have h2 : execS (X P) (exec (X P) (fuel + r.length)) normalizeScheme_body.tl.hd ⟨[("p0", .bytes (c :: r))], fl⟩ =
+      if letterI c.toNat then .normal ⟨[("p0", .bytes (c :: r)), ("l0", .int c.toNat)], fl⟩
+      else .ret [.bytes [], errV "errors.New" [.bytes nsMustStart]] ⟨[("p0", .bytes (c :: r)), ("l0", .int c.toNat)], fl⟩ := by
+    have hix : indexVal (.bytes (c :: r)) (.int 0) = .ok (.int c.toNat) := by
+      have := indexVal_bytes (c :: r) 0 (by simp); simpa using this
+    simp [normalizeScheme_body, Stmt.tl, Stmt.hd, hix, State.assign1, Env.set, Env.get, andK_ok_bool, orK_ok_bool,
+      -andK_bool, -orK_bool]
+    rcases Bool.eq_false_or_eq_true (letterI c.toNat) with h | h <;>
+      (simp only [h]; simp only [letterI] at h; simp [nsMustStart, errV]; simp at h; omega)
+  have h3 : ∀ σ, execS (X P) (exec (X P) (fuel + r.length)) normalizeScheme_body.tl.tl.hd.hd σ =
+      .normal (σ.assign1 (.loc "l1") (.int 1)) := by
+    intro σ; simp [normalizeScheme_body, Stmt.tl, Stmt.hd]
+  rw [exec_succ, hb]
+  simp only [execS_seq, execS_skip, Out.andThen_normal]
+  rw [h2]
+  simp only [normalizeSpec]
+  rcases Bool.eq_false_or_eq_true (letterI c.toNat) with h | h
+  · simp only [h, if_true, Out.andThen_normal, execS_seq]
+    rw [h3]
+    simp only [Out.andThen_normal]
+    have := normalizeScheme_loop P (c :: r) (.int c.toNat) fl hs (exec (X P) (fuel + r.length)) r [c] none fuel rfl
+    simpa [nsJ, State.assign1, Env.set] using this
+  · simp [h]
+
+/-- **normalizeScheme_is_model**: if `strings.ToLower` is ASCII lower-casing on the (validated, hence ASCII) scheme, the
+    source computes the hand model `OpenBuild.normalizeScheme` -/
+theorem normalizeScheme_is_model (P : Par) (c : UInt8) (r : Bytes)
+    (hlow : P.toLower (c :: r) = OpenBuild.lowerBytes (c :: r)) :
+    match OpenBuild.normalizeScheme (c :: r) with
+    | some n => normalizeSpec P c r = [.bytes n, .list []]
+    | none => ∃ e, normalizeSpec P c r = [.bytes [], e] := by
+  have hf : (fun b : UInt8 => !restI b.toNat) = (fun b => !OpenBuild.schemeRest b) := by
+    funext b; rw [restI_eq]
+  simp only [OpenBuild.normalizeScheme, normalizeSpec, nsRes, letterI_eq, hf]
+  cases hl : OpenBuild.isLetter c
+  · simp
+  · cases hfd : r.find? (fun b => !OpenBuild.schemeRest b) with
+    | none =>
+      have : r.all OpenBuild.schemeRest = true := by
+        rw [List.all_eq_true]; intro x hx
+        have := List.find?_eq_none.mp hfd x hx
+        simpa using this
+      simp [this, hlow]
+    | some b =>
+      have hb := List.find?_some hfd
+      have hm := List.mem_of_find?_eq_some hfd
+      have : r.all OpenBuild.schemeRest = false := by
+        rw [List.all_eq_false]; exact ⟨b, hm, by simpa using hb⟩
+      simp [this]
 
 end ZapVerif.C19
